@@ -139,6 +139,11 @@ def _proto(name):
         return (_lat(4.1, 4.6, 5.2, 78, 95, 111),
                 [(Fr(1, 10), Fr(1, 5), Fr(3, 10)), (Fr(3, 5), Fr(7, 10), Fr(4, 5)), (Fr(2, 5), Fr(1, 10), Fr(7, 10))],
                 ["Li", "Nb", "O"], "P", "triclinic", mag)
+    if name == "tric_ilv":
+        # P1 cell whose species are interleaved in the atom list (O, Li, O, Nb): the hostile case for writers that regroup atoms by species
+        return (_lat(4.1, 4.6, 5.2, 78, 95, 111),
+                [(Fr(1, 10), Fr(1, 5), Fr(3, 10)), (Fr(3, 5), Fr(7, 10), Fr(4, 5)), (Fr(2, 5), Fr(1, 10), Fr(7, 10)), (Fr(1, 4), Fr(17, 20), Fr(3, 20))],
+                ["O", "Li", "O", "Nb"], "P", "triclinic", mag)
     if name == "tric_pbar1":
         x = (Fr(1, 5), Fr(3, 10), Fr(1, 10))
         return (_lat(3.8, 4.3, 5.0, 80, 98, 108), [(0, 0, 0), x, tuple(-v for v in x)], ["Ca", "F", "F"], "P", "triclinic", mag)
